@@ -391,6 +391,108 @@ contract('C15.runtime.undefined', [TS + ':SensitivityAnalysis.run', TM + ':Monte
          custom=_undefined)(lambda c: None)
 
 
+def _constrained(ct, tier, seed):
+    """bounded: a lens that carries a pickup (R2 = -R1) and a marginal-ray-height solve on the image surface, toleranced without
+    compensators: every recorded row equals the operands of a fresh nominal lens (built the same way) to which exactly the recorded
+    perturbation value was applied, and after the run -- and after reset() -- radii and vertex positions are the nominal ones
+    (whatever a trial does to satisfy the lens's constraints must be undone with the trial)"""
+    import time
+    import warnings
+    import numpy as np
+    from optiland.optic import Optic
+    from optiland.materials import IdealMaterial
+    from optiland.tolerancing.core import Tolerancing
+    from optiland.tolerancing.perturbation import RangeSampler, ScalarSampler
+    from optiland.tolerancing.sensitivity_analysis import SensitivityAnalysis
+    from optiland.tolerancing.monte_carlo import MonteCarlo
+    warnings.simplefilter('ignore')
+    np.seterr(all='ignore')
+    t0 = time.time()
+    clauses, fails, cases = {}, [], 0
+
+    def note(cid, ok, detail, inputs):
+        c_ = clauses.setdefault(cid, {'paths': 0, 'proved': 0, 'backends': {}, 'failed': [], 'seconds': 0.0, 'bounded': True})
+        c_['paths'] += 1
+        if ok:
+            c_['proved'] += 1
+            c_['backends']['runtime'] = c_['backends'].get('runtime', 0) + 1
+        else:
+            fails.append({'clause': cid, 'draws': inputs, 'note': detail})
+
+    def build():
+        L = Optic()
+        L.add_surface(index=0, thickness=np.inf)
+        L.add_surface(index=1, radius=50.0, thickness=5.0, material=IdealMaterial(1.5168), is_stop=True)
+        L.add_surface(index=2, radius=-50.0, thickness=45.0)
+        L.add_surface(index=3)
+        L.set_aperture('EPD', 8.0)
+        L.set_field_type('angle')
+        L.add_field(y=0.0)
+        L.add_field(y=2.0)
+        L.add_wavelength(0.55, is_primary=True)
+        L.pickups.add(1, 'radius', 2, scale=-1, offset=0)
+        L.solves.add('marginal_ray_height', 3, 0.0)
+        L.update()
+        return L
+
+    def tol_for(L):
+        T = Tolerancing(L)
+        for Hy in (0.0, 1.0):
+            T.add_operand('rms_spot_size', {'optic': L, 'surface_number': -1, 'Hx': 0.0, 'Hy': Hy, 'num_rays': 3, 'wavelength': 0.55,
+                                            'distribution': 'hexapolar'})
+        return T
+
+    def state(L):
+        return [float(v_) for v_ in np.ravel(L.surface_group.radii)[1:3]] + [float(v_) for v_ in np.ravel(L.surface_group.positions)]
+    PERT = {'radius': (dict(surface_number=1), (48.0, 52.0)), 'thickness': (dict(surface_number=1), (4.5, 5.5)),
+            'index': (dict(surface_number=1, wavelength=0.55), (1.50, 1.53))}
+
+    def fresh(kind, value):
+        L2 = build()
+        T2 = tol_for(L2)
+        T2.add_perturbation(kind, ScalarSampler(float(value)), **PERT[kind][0])
+        T2.perturbations[0].apply()
+        return [float(v_) for v_ in T2.evaluate()]
+    nominal = state(build())
+    for mode in ('sensitivity', 'monte_carlo'):
+        for kind in PERT:
+            L = build()
+            T = tol_for(L)
+            lo, hi = PERT[kind][1]
+            T.add_perturbation(kind, RangeSampler(lo, hi, 3), **PERT[kind][0])
+            inputs = {'analysis': mode, 'perturbation': kind}
+            try:
+                A = SensitivityAnalysis(T) if mode == 'sensitivity' else MonteCarlo(T)
+                A.run() if mode == 'sensitivity' else A.run(3)
+                df = A.get_results()
+            except Exception as ex:
+                note('C15.runtime.constrained_lens_run_completes', False, '%s: %s' % (type(ex).__name__, ex), inputs)
+                continue
+            note('C15.runtime.constrained_lens_run_completes', True, '', inputs)
+            names = A.operand_names
+            pcol = 'perturbation_value' if mode == 'sensitivity' else [c_ for c_ in df.columns if c_ not in names][0]
+            for i in range(len(df)):
+                val = float(df.iloc[i][pcol])
+                got, want = [float(df.iloc[i][n_]) for n_ in names], fresh(kind, val)
+                cases += 1
+                note('C15.runtime.constrained_lens_row_equals_fresh_lens_with_the_recorded_perturbation',
+                     bool(np.allclose(got, want, rtol=1e-9, atol=1e-12, equal_nan=True)), 'trial %d (%s = %s): %s vs fresh %s' % (i, kind, val, got, want),
+                     dict(inputs, trial=i))
+            note('C15.runtime.constrained_lens_back_at_nominal_after_the_run', bool(np.allclose(state(L), nominal, rtol=0, atol=1e-10)),
+                 '%s vs nominal %s' % (state(L), nominal), inputs)
+            T.reset()
+            note('C15.runtime.constrained_lens_back_at_nominal_after_reset', bool(np.allclose(state(L), nominal, rtol=0, atol=1e-10)),
+                 '%s vs nominal %s' % (state(L), nominal), inputs)
+    return {'contract': ct.name, 'functions': ct.functions, 'props': ct.props,
+            'symbolic': {'clauses': clauses, 'paths': 0, 'errors': [], 'solver_s': 0.0, 'samples': [], 'wd_assumed': [], 'assumed': []},
+            'numeric': {'accepted': cases, 'rejected': 0, 'failures': fails[:10], 'concolic_agree': 0, 'encoder_mismatches': [],
+                        'samples': [{'lens': 'equi-convex singlet, pickup R2 = -R1, image solve'}]}, 'wall_s': time.time() - t0}
+
+
+contract('C15.runtime.constrained', [TS + ':SensitivityAnalysis.run', TM + ':MonteCarlo.run', TC + ':Tolerancing.apply_compensators', TC + ':Tolerancing.reset'],
+         ['C15'], custom=_constrained)(lambda c: None)
+
+
 def _seeded(ct, tier, seed):
     """bounded: a sampler built with a seed -- any integer, 0 included -- makes the sample sequence (and a Monte-Carlo table built on
     it) reproducible whatever the state of NumPy's global generator was before"""
